@@ -226,8 +226,10 @@ func (f *FibStrategyTree) clearNextHopsEnc(name enc.Name) {
 
 // UpdateBatch applies several next-hop changes atomically with respect to lookups.
 func (f *FibStrategyTree) UpdateBatch(fn func(b FibBatch)) {
+	verifBeforeWLock(&f.fibStrategyRWMutex, "fib.lock")
 	f.fibStrategyRWMutex.Lock()
 	defer f.fibStrategyRWMutex.Unlock()
+	verifMutating(&f.fibStrategyRWMutex, "fib.mut")
 	fn(fibTreeBatch{f})
 }
 
